@@ -144,7 +144,18 @@ class SubunitBase(ABC):
             return
 
         if function_name is not None and value_str is not None and (handler := self.function_handlers.get(function_name, None)):
-            handler.update(value_str)
+            try:
+                handler.update(value_str)
+            except Exception:  # noqa: BLE001
+                # Devices sometimes report values that can not be converted (e.g. FMFREQ=Auto Down while seeking).
+                # That should not break the connection, keep the previous value.
+                logger.warning(
+                    "Subunit %s ignoring value '%s' for %s, it can not be converted",
+                    self.id,
+                    value_str,
+                    function_name,
+                )
+                return
             self._call_registered_update_callbacks(function_name, handler.value)
 
     def _put(self, function_name: str, value: str):
